@@ -30,7 +30,7 @@ Record store := { by_id : Nmap N; by_type : Nmap N }.
 Definition st_new : store := {| by_id := ∅; by_type := ∅ |}.
 
 Inductive st_op :=
-| OpStore (id tag : N) | OpGet (id : N) | OpDelete (id : N)
+| OpStore (id tag : N) | OpGet (id : N) | OpDelete (id : N) | OpDeleteIf (id tag : N)
 | OpStoreByType (ty tag : N) | OpGetByType (ty : N) | OpDeleteByType (ty : N).
 
 Definition st_step (s : store) (o : st_op) : option N * store :=
@@ -38,6 +38,10 @@ Definition st_step (s : store) (o : st_op) : option N * store :=
   | OpStore id tag => (None, {| by_id := <[id := tag]> (by_id s); by_type := by_type s |})
   | OpGet id => (by_id s !! id, s)
   | OpDelete id => (None, {| by_id := delete id (by_id s); by_type := by_type s |})
+  | OpDeleteIf id tag =>      (* DeleteIf: only when the slot holds this very transaction *)
+    (None, match by_id s !! id with
+           | Some t => if t =? tag then {| by_id := delete id (by_id s); by_type := by_type s |} else s
+           | None => s end)
   | OpStoreByType ty tag => (None, {| by_id := by_id s; by_type := <[ty := tag]> (by_type s) |})
   | OpGetByType ty => (by_type s !! ty, s)
   | OpDeleteByType ty => (None, {| by_id := by_id s; by_type := delete ty (by_type s) |})
